@@ -922,6 +922,27 @@ class Interp(object):
         raise Unsupported('call of %r' % (f,))
 
     def call_builtin(self, f, args, kwargs, node):
+        if f is sorted and len(args) == 1 and isinstance(args[0], (list, tuple)) and set(kwargs) <= {'key'}:
+            # stable insertion sort; comparisons of symbolic integer keys fork the path
+            items = list(args[0])
+            kf = kwargs.get('key')
+            keys = [self.call(kf, [x], {}, node) if kf is not None else x for x in items]
+            if any(is_sym(k) for k in keys):
+                if not all(is_sym(k) and z3.is_int(k) or (isinstance(k, int) and not isinstance(k, bool)) for k in keys):
+                    raise Unsupported('sorted with symbolic non-integer keys')
+                out = []
+                for x, k in zip(items, keys):
+                    pos = len(out)
+                    while pos > 0 and self.path.branch(duck._lift(k) < duck._lift(out[pos - 1][1])):
+                        pos -= 1
+                    out.insert(pos, (x, k))
+                return [x for (x, _) in out]
+            if kf is not None and not any(isinstance(k, SObj) for k in keys):
+                try:
+                    order = sorted(range(len(items)), key=lambda i: keys[i])
+                except TypeError as ex:
+                    raise PyRaise('TypeError', str(ex), node)
+                return [items[i] for i in order]
         sym = any(is_sym(a) or isinstance(a, (SObj, SSeq, SSlice)) for a in args)
         if not sym:
             if f in (list, tuple) and args and isinstance(args[0], (list, tuple)) and any(
